@@ -100,6 +100,23 @@ def gen_pairs(ctx):
                 else:
                     pairs.append(('neutral', {**desc, 'what': 'One-time Grants Etc = 0'}, with_(cfg, costs(1)),
                                   with_(cfg, costs(1) + [('One-time Grants Etc', 0)])))
+    for _ in range(ctx.n(6, 60)):    # cost scaling with redrilling: the amortised (Cwell + Cstim) x redrillings / lifetime term of
+        # O&M comes from the drilling and stimulation correlations, so their adjustment factors are cost inputs to scale too
+        eu = rnd.choice(configs.ENDUSES)
+        pl = rnd.choice(configs.ELEC_PLANTS if eu != 2 else [9])
+        cfg = [(k2, v) for k2, v in base_config(rnd, enduse=eu, plant=pl, resmodel=4, life=rnd.choice([10, 20, 30]))
+               if k2 not in ('Maximum Drawdown', 'Drawdown Parameter')]
+        cfg += [('Maximum Drawdown', configs.fmt(configs.dec(rnd, 0.05, 0.3, 2))), ('Drawdown Parameter', configs.fmt(configs.dec(rnd, 0.01, 0.04, 3)))]
+        C, O, r = configs.dec(rnd, 20, 150, 1), configs.dec(rnd, 0.5, 6, 2), configs.dec(rnd, 0.03, 0.12, 3)
+        a, st = configs.dec(rnd, 0.5, 1.5, 2), configs.dec(rnd, 0.5, 1.5, 2)
+        k = rnd.choice([F(1, 2), F(2), F(3)])
+        costs = lambda kk: [('Total Capital Cost', float(F(str(C)) * kk)), ('Total O&M Cost', float(F(str(O)) * kk)),
+                            ('Electricity Rate', float(F(str(r)) * kk)),
+                            ('Well Drilling and Completion Capital Cost Adjustment Factor', float(F(str(a)) * kk)),
+                            ('Reservoir Stimulation Capital Cost Adjustment Factor', float(F(str(st)) * kk))]
+        d = dict(cfg)
+        pairs.append(('scale', {'econ': int(d['Economic Model']), 'enduse': eu, 'plant': pl, 'life': int(d['Plant Lifetime']), 'k': str(k),
+                                'redrilling': True, 'C': C, 'O': O, 'rate': r}, with_(cfg, costs(1)), with_(cfg, costs(k))))
     for _ in range(ctx.n(6, 60)):    # zero add-on (needs one construction year: the add-on report writer)
         eu = rnd.choice(configs.ENDUSES)
         pl = rnd.choice(configs.ELEC_PLANTS if eu != 2 else [9])
